@@ -79,6 +79,7 @@ def run(repo, rep, tier):
                   'bookkeeping of the class resolver')
     redeclared_flavors(repo, rep)
     flavor_default_rule(repo, rep)
+    resolve_gets_deep_copy(repo, rep)
     inheritance_marks(repo, rep, r6)
 
     mp = repo.cls(MAIN, 'MainProvider')
@@ -692,3 +693,53 @@ def flavor_default_rule(repo, rep):
                             'its declaration on the element' % tx)
     if sites < 3:
         raise AnalysisError('C12.R8: only %d defaulting sites found' % sites)
+
+
+def resolve_gets_deep_copy(repo, rep):
+    """C12.R9: _resolve_class() completes the class *in place* (inherited
+    qualifiers are inserted into the elements, flavors and propagated flags
+    are set).  It must therefore be given a deep copy of the caller's
+    class: CIMClass.copy() shares the CIMProperty / CIMMethod /
+    CIMQualifier objects with the original, so resolution would write into
+    the caller's definition, and re-using that definition (another
+    namespace, a sibling branch, a second ModifyClass) replays the
+    qualifiers of the first hierarchy as if the class declared them."""
+    r9 = rep.rule('C12.R9', 'class resolution works on a deep copy of the '
+                  'caller\'s class')
+    sites = []
+    for rel, m in sorted(repo.modules.items()):
+        if not m.relpath.startswith('pywbem_mock/'):
+            continue
+        for f in m.all_funcs():
+            for c in walk_no_nested(f.node):
+                if isinstance(c, ast.Call) and \
+                        (dotted(c.func) or '').endswith('._resolve_class') \
+                        and c.args and isinstance(c.args[0], ast.Name):
+                    sites.append((m, f, c))
+    for m, f, c in sites:
+        r9.sites += 1
+        r9.functions.add(f.fq)
+        var = c.args[0].id
+        defs = [n.value for n in walk_no_nested(f.node)
+                if isinstance(n, ast.Assign) and any(
+                    isinstance(t, ast.Name) and t.id == var
+                    for t in n.targets)]
+        ok = bool(defs) and all(
+            isinstance(d, ast.Call) and
+            (dotted(d.func) or '').split('.')[-1] == 'deepcopy'
+            for d in defs)
+        r9.ob(ok, '%s|%s' % (f.qualname, var),
+              {'definitions': [norm(d, 60) for d in defs]})
+        if not ok:
+            rep.finding(r9, f.qualname, '%s = %s' % (
+                var, norm(defs[0], 50) if defs else '(parameter)'),
+                'shallow-copy-resolved', m.relpath, c.lineno,
+                '%s is resolved in place but is not a deepcopy() of the '
+                'caller\'s object (%s): the elements it shares with the '
+                'caller\'s class receive the inherited qualifiers, and a '
+                'second request with the same Python object stores them as '
+                'the class\'s own declarations'
+                % (var, [norm(d, 40) for d in defs] or 'passed through'))
+    if r9.sites < 3:
+        raise AnalysisError('C12.R9: only %d calls of _resolve_class'
+                            % r9.sites)
